@@ -64,9 +64,13 @@ Section Arr.
       r <- shared_get s2 a;;
       match r with
       | Some m =>
-        (* ra->sz = sz; ra->nm = nm; ra->buf = ra + 1; a->len = nm *)
-        let s3 := wr_desc s2 m (mkDesc sz nm Inline) in
-        Ok (set_offlen s3 a (off_at s3 a) nm)
+        (* ra->sz = sz; ra->nm = nm; ra->buf = ra + 1: writes the first HDR
+           bytes of the block (out of bounds if the byte count wrapped
+           around to less than that); a->len = nm *)
+        if match block_size (al s2) m with Some bs => HDR <=? bs | None => false end then
+          let s3 := wr_desc s2 m (mkDesc sz nm Inline) in
+          Ok (set_offlen s3 a (off_at s3 a) nm)
+        else Flt
       | None => Ok s2
       end.
 
